@@ -105,6 +105,12 @@ class WriterExec:
             neg = {"<": ">=", ">=": "<", ">": "<=", "<=": ">", "==": "!=", "!=": "==", "is": "is not", "is not": "is", "in": "not in", "not in": "in"}
             if sym:
                 l, r = ast.unparse(sub.left), ast.unparse(sub.comparators[0])
+                # a named constant and its value are the same operand
+                fl, fr = self.folder.fold(sub.left), self.folder.fold(sub.comparators[0])
+                if isinstance(fl, int) and not isinstance(fl, bool):
+                    l = str(fl)
+                if isinstance(fr, int) and not isinstance(fr, bool):
+                    r = str(fr)
                 forms = [("%s %s %s" % (l, sym, r), True), ("%s %s %s" % (l, neg[sym], r), False)]
                 if sym in flip:
                     forms += [("%s %s %s" % (r, flip[sym], l), True), ("%s %s %s" % (r, flip[neg[sym]], l), False)]
